@@ -145,6 +145,8 @@ def suggest_response(op):
 # ---------------------------------------------------------------------------
 def error_class(e):
   """Client-visible class of an exception raised by a servicer call."""
+  if hasattr(e, 'grpc_code'):  # histories.FakeAbort (ServicerContext.abort)
+    return 'rpc:' + getattr(e.grpc_code, 'name', str(e.grpc_code))
   if isinstance(e, grpc.RpcError):
     try:
       return 'rpc:' + e.code().name
